@@ -120,6 +120,10 @@ func TestC07(t *testing.T) {
 			if os.Getenv("VERIF_SHAPES") != "" {
 				c.Shapes = true
 			}
+			if !avoid["match"] && !avoid["obj"] && !avoid["repeat:obj"] && !avoid["dyn"] && rapid.IntRange(0, 4).Draw(rt, "match_chain") == 0 {
+				// packets without a match field of their own that hold one that has
+				c.PostProgram = dsl.AddMatchChain
+			}
 			return c, 3, v, false
 		},
 		nontrivial: func(k xCase) bool {
